@@ -1,13 +1,14 @@
 (** Everything together: histories from [init] over the whole alphabet covered for graphs with
-    binds -- every operation of the bind fragment, both stabilizers, plan-free or with a plan made
-    of var writes and at most ONE fault (the function or the cutoff function of a node, error or
-    panic) -- keep [Inv], [ValInvB], [Tplain], [templates_ok] at every boundary, and every
+    binds -- every operation of the bind fragment, both stabilizers, plan-free or with a plan: ANY
+    well-formed plan (var writes and any number of faults) under the serial stabilizer, var writes
+    and at most ONE fault (the function or the cutoff function of a node, error or panic) under
+    the parallel one -- keep [Inv], [ValInvB], [Tplain], [templates_ok] at every boundary, and every
     plan-free pass of either stabilizer ends consistent with the observers reading the
     from-scratch values. *)
 From incr Require Import Base Heap HeapSpec HeapProofs EngineDefs Engine EngineRun EngineWf Spec EngineLemmas EngineLocal
      EngineInv EngineInvProofs PassInv PassProofs PassPlanProofs PassBind PassBindProofs PassBindSwap PassBindSwapProofs
      PassBindSwapStep PassBindOps PassBindFault PassBindWrites PassBindTotal PassBindMixed PassBindFaultGen
-     ParBind ParBindStep ParBindHistory ParBindWrites ParBindFault.
+     ParBind ParBindStep ParBindHistory ParBindWrites ParBindFault PassBindMultiFault.
 From incr Require Import SpecProofs.
 
 (** * writes and one fault in one plan, under ParStabilize *)
@@ -47,8 +48,10 @@ Proof.
 Qed.
 
 (** * the alphabet *)
+(* a serial pass with ANY plan (writes and any number of faults: PassBindMultiFault.v); a parallel pass
+   whose plan has writes and at most one fault *)
 Definition isPlanPass (o : op) : bool :=
-  match o with Stabilize p | ParStabilize p => isOneFaultPlan p | _ => false end.
+  match o with Stabilize _ => true | ParStabilize p => isOneFaultPlan p | _ => false end.
 
 Fixpoint histE_run (s : state) (os : list op) : option state :=
   match os with
@@ -73,7 +76,7 @@ Lemma stepE_inv s o s' e :
   Inv s' /\ ValInvB s' /\ Tplain s' /\ templates_ok s' = true.
 Proof.
   intros IV V TP Ht Ho Hok Hcl H Hr. destruct o; try discriminate Ho; simpl in Ho, H, Hok, Hcl.
-  - exact (stepX_inv s (Stabilize p) s' e IV V TP Ht Ho Hok H Hr).
+  - exact (stepN_inv s (Stabilize p) s' e IV V TP Ht eq_refl Hok H Hr).
   - unfold isOneFaultPlan in Ho. destruct (fo p) as [|[[x w] a] l] eqn:Hfo.
     + destruct (parW_pass s p s' e IV V TP (fo_nil_writes_only p Hfo) Hok H Hr) as (_ & t' & _ & _ & A & B & C & D & _).
       split; [exact A|]. split; [exact B|]. split; [exact C|apply (templates_ok_CF s s' D Ht)].
@@ -161,6 +164,8 @@ Definition exE_ops : list op :=
     ParStabilize [(2%nat, WCut, ASet 1%nat 9); (2%nat, WCut, AFail FPanic)];   (* the cutoff function writes, then panics *)
     Stabilize [];                                               (* serial retry *)
     StabilizeCancelled;
+    SetVar 0%nat 6;
+    Stabilize [(5%nat, WFn, AFail FErr); (3%nat, WFn, AFail FPanic); (2%nat, WCut, AFail FErr)];   (* three faults *)
     ParStabilize [] ].
 
 Lemma exE_runs : exists s, histE_run (init 64) exE_ops = Some s.
